@@ -17,7 +17,7 @@ MODELS = os.path.join(ENGINE, 'models')
 NCPU = os.cpu_count() or 4
 HOOK_DEFINE = 'BITSERIALIZER_VERIF'
 
-IRFLAGS = ['-std=c++17', '-O1', '-fno-vectorize', '-fno-slp-vectorize', '-fno-unroll-loops',
+IRFLAGS = ['-std=c++17', '-O1', '-mllvm', '-simplifycfg-sink-common=false', '-fno-vectorize', '-fno-slp-vectorize', '-fno-unroll-loops',
            '-fno-builtin-isdigit', '-fno-builtin-isspace', '-fno-builtin-tolower', '-fno-builtin-memcmp',
            '-I' + REPO + '/include', '-I' + REPO + '/src', '-I' + VERIF + '/harness', '-S', '-emit-llvm',
            '-D' + HOOK_DEFINE + '=1', '-DVERIF_SYMBOLIC=1',
@@ -346,9 +346,12 @@ def loops_of(d, o):
 def resolve_unwind_fn(o, loops):
     """per-function unwinding bounds: {"regex on function name": K} -> --unwindset entries (first matching regex wins)"""
     us = []
+    # byte loops of the models (message strings of exceptions are up to ~100 characters, concrete)
+    spec = dict(o.get('unwind_fn', {}))
+    spec.setdefault('^(M_strlen|verif_memcpy|verif_memmove|verif_memset|M_memcmp|M_bcmp)$', int(o.get('unwind_models', 128)))
     for lid in loops:
         fn = lid.rsplit('.', 1)[0]
-        for rx, k in o.get('unwind_fn', {}).items():
+        for rx, k in spec.items():
             if re.search(rx, fn):
                 us.append('%s:%d' % (lid, k)); break
     return us
@@ -468,6 +471,9 @@ def check(prop, tier, only=None, keep=False, seed=0):
                 # a thorough obligation may supersede a quick one of the same family
                 sup = {o.get('supersedes') for o in obls if o.get('supersedes')}
                 obls = [o for o in obls if o['name'] not in sup]
+            # obligations that pin down the exact deviant behaviour of a recorded (not repaired) finding exist only while it is 'known'
+            known_ids = {f['id'] for f in findings if f['status'] == 'known'}
+            obls = [o for o in obls if not o.get('only_if_known') or o['only_if_known'] in known_ids]
             if only: obls = [o for o in obls if o['name'] in only]
             if not obls: continue
             hs.append((h, obls))
@@ -485,7 +491,12 @@ def check(prop, tier, only=None, keep=False, seed=0):
                 o['_known_classes'] = kc
                 open(os.path.join(d, 'drv_%s.c' % o['name']), 'w').write(driver_c(o, kc))
             def lo(o):
-                o['_unwindset'] = resolve_unwind_fn(o, loops_of(d, o)) if o.get('unwind_fn') else []
+                o['_unwindset'] = resolve_unwind_fn(o, loops_of(d, o))
+                # recursion bounds: {"regex on function name": K} -> --unwindset <function>:K
+                for rx, k in o.get('recursion', {}).items():
+                    for fn in fl:
+                        cn = re.sub(r'[^A-Za-z0-9_]', '_', fn)
+                        if re.search(rx, cn): o['_unwindset'].append('%s:%d' % (cn, k))
             with ThreadPoolExecutor(max_workers=8) as ex:
                 list(ex.map(lo, obls))
             with ThreadPoolExecutor(max_workers=2) as ex:
@@ -524,7 +535,7 @@ def check(prop, tier, only=None, keep=False, seed=0):
             h, o, d = job
             res = {'obligation': o['name'], 'harness': h['name'], 'desc': o.get('desc', ''), 'bounds': o.get('bounds', ''),
                    'unwind': o['unwind'], 'unwind_fn': o.get('unwind_fn', {}), 'in_bytes': o['in'], 'known_classes_excluded': o['_known_classes']}
-            r = run_race(o, d, o['cap_s'])
+            r = run_race(o, d, int(os.environ.get('VERIF_CAP', o['cap_s'])))
             res.update({'backend': r.get('backend'), 'solver_s': r.get('solver_s'), 'symex_s': r.get('symex_s'), 'wall_s': r.get('wall_s'),
                         'vars': r.get('vars'), 'clauses': r.get('clauses'), 'cbmc_properties': r.get('nprops')})
             if r['verdict'] is None:
